@@ -65,6 +65,34 @@ pub fn comp_dist(c: &Comp, a: &[f64], b: &[f64]) -> f64 {
     }
 }
 
+/// The harness's own implementation of the space metric on flat states: the component metric
+/// for single-component spaces, sqrt(sum (w_k d_k)^2) otherwise. Written independently of the
+/// library (C09 / C13 state the law); used by worlds and goals flagged `harness_metric`.
+#[derive(Clone, Debug)]
+pub struct HMetric {
+    pub lay: Vec<Comp>,
+    pub w: Vec<f64>,
+}
+impl HMetric {
+    pub fn new(spec: &SpaceSpec) -> Self {
+        HMetric { lay: layout(spec), w: comp_weights(spec) }
+    }
+    pub fn d(&self, a: &[f64], b: &[f64]) -> f64 {
+        if self.lay.len() == 1 && !(self.w[0] != 1.0) {
+            return comp_dist(&self.lay[0], a, b);
+        }
+        let mut off = 0;
+        let mut sum = 0.0;
+        for (c, w) in self.lay.iter().zip(&self.w) {
+            let n = c.width();
+            let x = comp_dist(c, &a[off..off + n], &b[off..off + n]) * w;
+            sum += x * x;
+            off += n;
+        }
+        sum.sqrt()
+    }
+}
+
 /// Weight of every layout component in the space metric (1 for non-compound spaces).
 pub fn comp_weights(spec: &SpaceSpec) -> Vec<f64> {
     match spec {
@@ -470,7 +498,7 @@ impl<R: Raw> Geo for GeoImpl<R> {
         self.worlds[w].valid(&self.inner, &s)
     }
     fn set_worlds(&mut self, worlds: &[crate::spec::WorldSpec]) {
-        self.worlds = worlds.iter().map(|w| crate::world::TypedWorld::<R>::new(&self.lay, w)).collect();
+        self.worlds = worlds.iter().map(|w| crate::world::TypedWorld::<R>::new(&self.spec, w)).collect();
     }
 }
 
